@@ -1,3 +1,4 @@
+mod adv;
 mod ctx;
 mod gen;
 mod kind;
@@ -33,28 +34,23 @@ fn main() {
     let size: usize = arg(&args, "--size", "6").parse().unwrap();
     let stats_path = arg(&args, "--stats", "");
 
-    let mut c = Ctx::new(seed ^ fxhash(&group), "", size);
-    match group.as_str() {
-        "prim" => ops_prim::PrimOps::<VecKind>::run(&mut c, count),
-        "ff" => ops_ff::FfOps::<VecKind>::run(&mut c, count),
-        "ic" => ops_ic::IcOps::<VecKind>::run(&mut c, count),
-        "hg" => ops_strict::StrictOps::<VecKind>::run_hg(&mut c, count),
-        "oh" => ops_strict::StrictOps::<VecKind>::run_oh(&mut c, count),
-        "graph" => ops_graph::GraphOps::<VecKind>::run_graph(&mut c, count),
-        "eval" => ops_graph::GraphOps::<VecKind>::run_eval(&mut c, count),
-        "lax.edit" => ops_lax::run_edit(&mut c, count, false),
-        "lax.quot" => ops_lax::run_edit(&mut c, count, true),
-        "lax.cat" => ops_lax::run_cat(&mut c, count),
-        "lawlax" => ops_lax::run_lawlax(&mut c, count),
-        "functor" => ops_functor::run_functor::<VecKind>(&mut c, count),
-        "dynfunctor" => ops_functor::run_dyn(&mut c, count),
-        "optic" => ops_functor::run_optic(&mut c, count),
-        "var" => ops_functor::run_var(&mut c, count),
-        "law" => ops_strict::StrictOps::<VecKind>::run_law(&mut c, count),
-        g => {
-            eprintln!("unknown group {}", g);
-            std::process::exit(2);
-        }
+    let (backend, g) = if let Some(r) = group.strip_prefix("adv1:") {
+        (1, r.to_string())
+    } else if let Some(r) = group.strip_prefix("adv2:") {
+        (2, r.to_string())
+    } else {
+        (0, group.clone())
+    };
+    let prefix: &'static str = match backend {
+        1 => "adv1:",
+        2 => "adv2:",
+        _ => "",
+    };
+    let mut c = Ctx::new(seed ^ fxhash(&g), prefix, size);
+    match backend {
+        0 => run_generic::<VecKind>(&mut c, &g, count),
+        1 => run_generic::<adv::AdvKind<1>>(&mut c, &g, count),
+        _ => run_generic::<adv::AdvKind<2>>(&mut c, &g, count),
     }
     let stdout = std::io::stdout();
     let mut lock = stdout.lock();
@@ -89,6 +85,36 @@ fn main() {
         }
         s.push_str("}}");
         std::fs::write(stats_path, s).unwrap();
+    }
+}
+
+fn run_generic<K: kind::HK>(c: &mut Ctx, g: &str, count: usize)
+where
+    K::Type<usize>: open_hypergraphs::array::NaturalArray<K> + PartialEq,
+    K::Type<u64>: open_hypergraphs::array::Array<K, u64> + PartialEq,
+{
+    match g {
+        "prim" => ops_prim::PrimOps::<K>::run(c, count),
+        "ff" => ops_ff::FfOps::<K>::run(c, count),
+        "ic" => ops_ic::IcOps::<K>::run(c, count),
+        "hg" => ops_strict::StrictOps::<K>::run_hg(c, count),
+        "oh" => ops_strict::StrictOps::<K>::run_oh(c, count),
+        "law" => ops_strict::StrictOps::<K>::run_law(c, count),
+        "graph" => ops_graph::GraphOps::<K>::run_graph(c, count),
+        "eval" => ops_graph::GraphOps::<K>::run_eval(c, count),
+        "functor" => ops_functor::run_functor::<K>(c, count),
+        // Vec-only groups (the lax module is written against VecKind)
+        "lax.edit" => ops_lax::run_edit(c, count, false),
+        "lax.quot" => ops_lax::run_edit(c, count, true),
+        "lax.cat" => ops_lax::run_cat(c, count),
+        "lawlax" => ops_lax::run_lawlax(c, count),
+        "dynfunctor" => ops_functor::run_dyn(c, count),
+        "optic" => ops_functor::run_optic(c, count),
+        "var" => ops_functor::run_var(c, count),
+        g => {
+            eprintln!("unknown group {}", g);
+            std::process::exit(2);
+        }
     }
 }
 
